@@ -390,7 +390,7 @@ def run(ctx):
         ctx.exclude("R9", len([1 for i in range(len(base)) if ctx.mine(i)]))
     ctx.cases([c for i, c in enumerate(base) if ctx.mine(i)], check, label="catalogue")
     n0 = ctx.evaluations
-    ctx.given(cases(), check, quick=60, thorough=3000)
+    ctx.given(cases(), check, quick=60, thorough=1500)
     if EXCLUDE_R9:
         ctx.exclude("R9", ctx.evaluations - n0)
     if c29.EXCLUDE_INT_NOMAP:
